@@ -77,10 +77,12 @@ func ruleConsumed(p *Prog, r *Result) {
 				found := false
 				for _, a := range dominatingAtoms(st.Block()) {
 					x, y, op := a.X, a.Y, a.Op
-					if y == delta {
+					// len(rows) is evaluated anew wherever it is written: any len of the same fetched slice
+					isDelta := func(v ssa.Value) bool { return v == delta || (lenOf(v) != nil && lenOf(v) == R) }
+					if isDelta(y) {
 						x, y, op = y, x, swapOp(op)
 					}
-					if x != delta {
+					if !isDelta(x) {
 						continue
 					}
 					sub, isSub := y.(*ssa.BinOp)
@@ -124,6 +126,16 @@ func ruleConsumed(p *Prog, r *Result) {
 					if st2, ok := in2.(*ssa.Store); ok {
 						if _, f2, d2, ok := fieldStoreAdd(st2); ok && f2 == fld && d2 == rest {
 							okInc = true
+						}
+						// skipped + (offset - skipped) written as what it is: skipped = offset
+						if _, f2, _, ok := fieldOfAddr(st2.Addr); ok && f2 == fld {
+							if sub, isSub := rest.(*ssa.BinOp); isSub {
+								_, fo, _, ok1 := loadedField(sub.X)
+								_, fv, _, ok2 := loadedField(st2.Val)
+								if ok1 && ok2 && fo == fv {
+									okInc = true
+								}
+							}
 						}
 					}
 					if sl, ok := in2.(*ssa.Slice); ok && sl.Low == rest && sl.High == nil && derivesFromNoElem(sl.X, func(x ssa.Value) bool { return x == R }) {
